@@ -3,9 +3,4 @@
 package c20
 
 // built against the autoyield-instrumented scratch copy of the library
-import (
-	_ "verif/harness/hookauto"
-	"verif/harness/simsched"
-)
-
-func init() { simsched.AtomicYields = false }
+import _ "verif/harness/hookauto"
